@@ -209,14 +209,17 @@ impl Backend for DieselSqlite {
         "diesel".into()
     }
     fn variants() -> usize {
-        4
+        // (recycling method, how a connection gets broken): each method with
+        // its own failing check, and every method with a dangling transaction
+        // (the backend's own "broken" report, which no method may override)
+        6
     }
     fn build(ms: usize, v: usize) -> Pool<Self::M> {
         use deadpool_diesel::{ManagerConfig, RecyclingMethod};
         let method = match v {
             0 => RecyclingMethod::Fast,
             1 => RecyclingMethod::Verified,
-            2 => RecyclingMethod::CustomQuery("SELECT 1 FROM ok_marker".into()),
+            2 | 4 => RecyclingMethod::CustomQuery("SELECT 1 FROM ok_marker".into()),
             _ => RecyclingMethod::CustomFunction(Box::new(|conn: &mut diesel::SqliteConnection| {
                 let s = diesel_serial(conn).unwrap_or(-1);
                 crate::c15c::note_check(s);
@@ -245,7 +248,7 @@ impl Backend for DieselSqlite {
         use diesel::connection::{AnsiTransactionManager, TransactionManager};
         use diesel::RunQueryDsl;
         match v {
-            0 | 1 => {
+            0 | 1 | 4 | 5 => {
                 // an open transaction left behind by the user
                 AnsiTransactionManager::begin_transaction(conn).unwrap();
             }
